@@ -27,26 +27,27 @@ import (
 // ---- sequential executions through policy stacks (specs/Failsafe.tla), direction A ----
 
 type desc struct {
-	K     string  `json:"k"`
-	Id    string  `json:"id"`
-	Max   int     `json:"max"`
-	H     []cond  `json:"h"`
-	A     []cond  `json:"a"`
-	Rlf   bool    `json:"rlf"`
-	Cfg   *brCfg  `json:"cfg"`
-	M     int     `json:"m"`
-	Pre   int     `json:"pre"`
-	Fr    string  `json:"fr"`
-	Fe    term    `json:"fe"`
-	Key   string  `json:"key"`
-	Ifc   []cond  `json:"ifc"`
-	Maxh  int     `json:"maxh"`
-	C     []cond  `json:"c"`
-	Delay int64   `json:"delay"`
-	Limit int64   `json:"limit"`
-	Dly   int64   `json:"dly"`  // retry: fixed delay (units)
-	MaxD  int64   `json:"maxd"` // retry: max duration (units)
-	Wait  int64   `json:"wait"` // bulkhead: max wait time (units)
+	K      string  `json:"k"`
+	Id     string  `json:"id"`
+	Max    int     `json:"max"`
+	H      []cond  `json:"h"`
+	A      []cond  `json:"a"`
+	Rlf    bool    `json:"rlf"`
+	Cfg    *brCfg  `json:"cfg"`
+	M      int     `json:"m"`
+	Pre    int     `json:"pre"`
+	Fr     string  `json:"fr"`
+	Fe     term    `json:"fe"`
+	Key    string  `json:"key"`
+	Ifc    []cond  `json:"ifc"`
+	Maxh   int     `json:"maxh"`
+	C      []cond  `json:"c"`
+	Delay  int64   `json:"delay"`
+	Limit  int64   `json:"limit"`
+	Dly    int64   `json:"dly"`    // retry: fixed delay (units)
+	MaxD   int64   `json:"maxd"`   // retry: max duration (units)
+	Wait   int64   `json:"wait"`   // bulkhead: max wait time (units)
+	Per    int64   `json:"per"`    // bursty rate limiter of the sequential model: period (units); 0 = one endless period
 	Ival   int64   `json:"ival"`   // smooth rate limiter: interval (units); 0 = the sequential model's bursty limiter
 	Delays []int64 `json:"delays"` // hedge: delay function = delays[Hedges() % len] (empty: fixed delay)
 }
@@ -82,19 +83,19 @@ type fsProbe struct {
 }
 
 type fsExec struct {
-	Ck      string             `json:"ck"`
-	Script  []outcome          `json:"script"`
-	Calls   int                `json:"calls"`
-	R       string             `json:"r"`
-	E       term               `json:"e"`
-	Success bool               `json:"success"`
-	Ev      []fsEvent          `json:"ev"`
-	Probe   probeMap           `json:"probe"`
-	Att     int                `json:"att"`
-	Exe     int                `json:"exe"`
-	Ret     int                `json:"ret"`
-	Hdg     int                `json:"hdg"`
-	Now     int64              `json:"now"`
+	Ck      string    `json:"ck"`
+	Script  []outcome `json:"script"`
+	Calls   int       `json:"calls"`
+	R       string    `json:"r"`
+	E       term      `json:"e"`
+	Success bool      `json:"success"`
+	Ev      []fsEvent `json:"ev"`
+	Probe   probeMap  `json:"probe"`
+	Att     int       `json:"att"`
+	Exe     int       `json:"exe"`
+	Ret     int       `json:"ret"`
+	Hdg     int       `json:"hdg"`
+	Now     int64     `json:"now"`
 }
 
 // probeMap: a TLA+ function with an empty domain is printed as an empty JSON array
@@ -209,6 +210,7 @@ type recorder struct {
 	t0    time.Time
 	lines []M
 	tld   time.Duration // how long the OnTimeoutExceeded listener takes
+	mute  bool          // events are not recorded (while the harness operates a spare policy during construction)
 }
 
 type xKeyT struct{}
@@ -335,6 +337,9 @@ func (r *recorder) info(name string, layer int, a failsafe.ExecutionInfo, res st
 }
 
 func (r *recorder) plain(name string, layer int, res string, x any) {
+	if r.mute {
+		return
+	}
 	if r.tmode {
 		r.tline(M{"ev": name, "L": layer}, x)
 		return
@@ -381,6 +386,7 @@ type builtStack struct {
 	bulkMax  map[string]int
 	caches   map[string]*instrCache
 	rec      *recorder
+	spare    []any // second policies built from the same builders (alt&2): they must not share anything with the first
 }
 
 func condPred(c cond) func(string, error) bool {
@@ -467,6 +473,33 @@ func applyStrConds(cs []cond, onErrsV func(...error), onResult func(string), onI
 	}
 }
 
+// strIsFailure is the documented classification rule for a set of handle conditions (the harness' own reading of it).
+func strIsFailure(cs []cond, r string, err error) bool {
+	if len(cs) == 0 {
+		return err != nil
+	}
+	errorsChecked := false
+	for _, c := range cs {
+		switch c.T {
+		case "errors":
+			errorsChecked = true
+			if err != nil && errors.Is(err, condErr(c.V)) {
+				return true
+			}
+		case "result":
+			if err == nil && r == mkString(c.V) {
+				return true
+			}
+		case "if":
+			errorsChecked = true
+			if condPred(c)(r, err) {
+				return true
+			}
+		}
+	}
+	return err != nil && !errorsChecked
+}
+
 func buildStack(stack []desc, unit time.Duration, rec *recorder) *builtStack {
 	bs := &builtStack{breakers: map[string]circuitbreaker.CircuitBreaker[string]{}, limiters: map[string]ratelimiter.RateLimiter[string]{},
 		bulks: map[string]bulkhead.Bulkhead[string]{}, bulkMax: map[string]int{}, caches: map[string]*instrCache{}, rec: rec}
@@ -493,55 +526,95 @@ func buildStack(stack []desc, unit time.Duration, rec *recorder) *builtStack {
 		switch d.K {
 		case "retry":
 			b := retrypolicy.Builder[string]()
-			if rec.alt == 1 {
-				if d.Max == -1 {
-					b.WithMaxAttempts(-1)
+			// the builder calls, applied in declaration order or (alt&2) in reverse: none of them may depend on the order
+			var steps []func()
+			steps = append(steps, func() {
+				if rec.alt&1 == 1 {
+					if d.Max == -1 {
+						b.WithMaxAttempts(-1)
+					} else {
+						b.WithMaxAttempts(d.Max + 1)
+					}
 				} else {
-					b.WithMaxAttempts(d.Max + 1)
+					b.WithMaxRetries(d.Max)
 				}
-			} else {
-				b.WithMaxRetries(d.Max)
-			}
-			applyStrConds(d.H, func(e ...error) { b.HandleErrors(e...) }, func(r string) { b.HandleResult(r) }, func(f func(string, error) bool) { b.HandleIf(f) })
-			applyStrConds(d.A, func(e ...error) { b.AbortOnErrors(e...) }, func(r string) { b.AbortOnResult(r) }, func(f func(string, error) bool) { b.AbortIf(f) })
+			})
+			steps = append(steps, func() {
+				applyStrConds(d.H, func(e ...error) { b.HandleErrors(e...) }, func(r string) { b.HandleResult(r) }, func(f func(string, error) bool) { b.HandleIf(f) })
+			})
+			steps = append(steps, func() {
+				applyStrConds(d.A, func(e ...error) { b.AbortOnErrors(e...) }, func(r string) { b.AbortOnResult(r) }, func(f func(string, error) bool) { b.AbortIf(f) })
+			})
 			if d.Rlf {
-				b.ReturnLastFailure()
-			}
-			if d.Dly != 0 {
-				if rec.alt == 1 {
-					b.WithBackoff(time.Duration(d.Dly)*unit, time.Duration(d.Dly)*unit) // backoff capped at its first delay = that fixed delay
-				} else {
-					b.WithDelay(time.Duration(d.Dly) * unit)
-				}
+				steps = append(steps, func() { b.ReturnLastFailure() })
 			}
 			if d.MaxD != 0 {
-				b.WithMaxDuration(time.Duration(d.MaxD) * unit)
+				steps = append(steps, func() { b.WithMaxDuration(time.Duration(d.MaxD) * unit) })
+			}
+			if d.Dly != 0 {
+				steps = append(steps, func() {
+					dl := time.Duration(d.Dly) * unit
+					switch rec.alt {
+					case 3:
+						b.WithBackoff(dl, dl) // backoff capped at its first delay = that fixed delay
+					case 1:
+						b.WithRandomDelay(dl, dl) // a random delay in [d, d]
+					default:
+						b.WithDelay(dl)
+					}
+				})
 			}
 			if rec.registered("OnSuccess") {
-				b.OnSuccess(func(e failsafe.ExecutionEvent[string]) { rec.attempt("OnSuccess", evLayer, e, nil) })
+				steps = append(steps, func() {
+					b.OnSuccess(func(e failsafe.ExecutionEvent[string]) { rec.attempt("OnSuccess", evLayer, e, nil) })
+				})
 			}
 			if rec.registered("OnFailure") {
-				b.OnFailure(func(e failsafe.ExecutionEvent[string]) { rec.attempt("OnFailure", evLayer, e, nil) })
+				steps = append(steps, func() {
+					b.OnFailure(func(e failsafe.ExecutionEvent[string]) { rec.attempt("OnFailure", evLayer, e, nil) })
+				})
 			}
 			if rec.registered("OnAbort") {
-				b.OnAbort(func(e failsafe.ExecutionEvent[string]) { rec.attempt("OnAbort", evLayer, e, nil) })
+				steps = append(steps, func() { b.OnAbort(func(e failsafe.ExecutionEvent[string]) { rec.attempt("OnAbort", evLayer, e, nil) }) })
 			}
 			if rec.registered("OnRetriesExceeded") {
-				b.OnRetriesExceeded(func(e failsafe.ExecutionEvent[string]) { rec.attempt("OnRetriesExceeded", evLayer, e, nil) })
+				steps = append(steps, func() {
+					b.OnRetriesExceeded(func(e failsafe.ExecutionEvent[string]) { rec.attempt("OnRetriesExceeded", evLayer, e, nil) })
+				})
 			}
 			if rec.registered("OnRetryScheduled") {
-				b.OnRetryScheduled(func(e failsafe.ExecutionScheduledEvent[string]) {
-					var x any = M{"delay": int64(e.Delay / unit)}
-					if e.Delay%unit != 0 {
-						x = M{"delay": e.Delay.String()}
-					}
-					rec.attempt("OnRetryScheduled", evLayer, e, x)
+				steps = append(steps, func() {
+					b.OnRetryScheduled(func(e failsafe.ExecutionScheduledEvent[string]) {
+						var x any = M{"delay": int64(e.Delay / unit)}
+						if e.Delay%unit != 0 {
+							x = M{"delay": e.Delay.String()}
+						}
+						rec.attempt("OnRetryScheduled", evLayer, e, x)
+					})
 				})
 			}
 			if rec.registered("OnRetry") {
-				b.OnRetry(func(e failsafe.ExecutionEvent[string]) { rec.attempt("OnRetry", evLayer, e, nil) })
+				steps = append(steps, func() { b.OnRetry(func(e failsafe.ExecutionEvent[string]) { rec.attempt("OnRetry", evLayer, e, nil) }) })
+			}
+			if rec.alt&2 != 0 {
+				for i, j := 0, len(steps)-1; i < j; i, j = i+1, j-1 {
+					steps[i], steps[j] = steps[j], steps[i]
+				}
+			}
+			for _, f := range steps {
+				f()
 			}
 			p = b.Build()
+			if rec.alt&2 != 0 {
+				// the builder goes on to build another, different policy: the one already built must not change
+				if d.Max >= 0 {
+					b.WithMaxRetries(d.Max + 3)
+				}
+				b.ReturnLastFailure().WithMaxDuration(unit).
+					OnRetry(func(failsafe.ExecutionEvent[string]) { rec.plain("WrongListener", evLayer, "", nil) }).
+					OnRetriesExceeded(func(failsafe.ExecutionEvent[string]) { rec.plain("WrongListener", evLayer, "", nil) })
+				bs.spare = append(bs.spare, b.Build())
+			}
 		case "cb":
 			c := *d.Cfg
 			c.UnitNs = int64(unit)
@@ -551,19 +624,30 @@ func buildStack(stack []desc, unit time.Duration, rec *recorder) *builtStack {
 				b.WithFailureRateThreshold(c.Frate, c.Fexec, time.Duration(c.Period)*unit)
 			case c.Period != 0:
 				b.WithFailureThresholdPeriod(c.Fthr, time.Duration(c.Period)*unit)
-			case rec.alt == 1 && c.Fthr == c.Fcap:
+			case rec.alt&1 == 1 && c.Fthr == c.Fcap:
 				b.WithFailureThreshold(c.Fthr)
 			default:
 				b.WithFailureThresholdRatio(c.Fthr, c.Fcap)
 			}
 			if c.Sthr != 0 {
-				if rec.alt == 1 && c.Sthr == c.Scap {
+				if rec.alt&1 == 1 && c.Sthr == c.Scap {
 					b.WithSuccessThreshold(c.Sthr)
 				} else {
 					b.WithSuccessThresholdRatio(c.Sthr, c.Scap)
 				}
 			}
 			b.WithDelay(time.Duration(c.Delay) * unit)
+			if rec.alt&1 == 1 {
+				// a delay function that defers to the configured delay (-1) for the failure that trips the breaker, and opens
+				// it for no time at all when it is handed anything else
+				hs := d.H
+				b.WithDelayFunc(func(exec failsafe.ExecutionAttempt[string]) time.Duration {
+					if strIsFailure(hs, exec.LastResult(), exec.LastError()) {
+						return -1
+					}
+					return 0
+				})
+			}
 			applyStrConds(d.H, func(e ...error) { b.HandleErrors(e...) }, func(r string) { b.HandleResult(r) }, func(f func(string, error) bool) { b.HandleIf(f) })
 			if rec.registered("OnSuccess") {
 				b.OnSuccess(func(e failsafe.ExecutionEvent[string]) { rec.attempt("OnSuccess", evLayer, e, nil) })
@@ -589,8 +673,20 @@ func buildStack(stack []desc, unit time.Duration, rec *recorder) *builtStack {
 			cb := b.Build()
 			bs.breakers[d.Id] = cb
 			p = cb
+			if rec.alt&2 != 0 {
+				// a second breaker from the same builder has its own state
+				cb2 := b.Build()
+				rec.mute = true
+				cb2.Open()
+				rec.mute = false
+				bs.spare = append(bs.spare, cb2)
+			}
 		case "rl":
-			b := ratelimiter.BurstyBuilder[string](uint(d.M), 1000000*unit)
+			period := 1000000 * unit
+			if d.Per > 0 {
+				period = time.Duration(d.Per) * unit
+			}
+			b := ratelimiter.BurstyBuilder[string](uint(d.M), period)
 			if d.Ival > 0 {
 				b = ratelimiter.SmoothBuilderWithMaxRate[string](time.Duration(d.Ival) * unit).WithMaxWaitTime(time.Duration(d.Wait) * unit)
 			}
@@ -600,6 +696,13 @@ func buildStack(stack []desc, unit time.Duration, rec *recorder) *builtStack {
 			rl := b.Build()
 			bs.limiters[d.Id] = rl
 			p = rl
+			if rec.alt&2 != 0 && d.Ival == 0 {
+				// a second limiter from the same builder has its own permits
+				rl2 := b.Build()
+				for i := 0; i < 100 && rl2.TryAcquirePermit(); i++ {
+				}
+				bs.spare = append(bs.spare, rl2)
+			}
 		case "bh":
 			b := bulkhead.Builder[string](uint(d.Max))
 			if d.Wait != 0 {
@@ -617,6 +720,13 @@ func buildStack(stack []desc, unit time.Duration, rec *recorder) *builtStack {
 			bs.bulks[d.Id] = bh
 			bs.bulkMax[d.Id] = d.Max
 			p = bh
+			if rec.alt&2 != 0 {
+				// a second bulkhead from the same builder has its own permits (and leaves the first one's alone)
+				bh2 := b.Build()
+				for i := 0; i < 100 && bh2.TryAcquirePermit(); i++ {
+				}
+				bs.spare = append(bs.spare, bh2)
+			}
 		case "fb":
 			fr, fe := mkString(d.Fr), buildErrX(d.Fe)
 			b := fallback.BuilderWithFunc(func(exec failsafe.Execution[string]) (string, error) {
@@ -638,9 +748,15 @@ func buildStack(stack []desc, unit time.Duration, rec *recorder) *builtStack {
 				b.OnFailure(func(e failsafe.ExecutionEvent[string]) { rec.attempt("OnFailure", evLayer, e, nil) })
 			}
 			if rec.registered("OnFallbackExecuted") {
-				b.OnFallbackExecuted(func(e failsafe.ExecutionDoneEvent[string]) { rec.info("OnFallbackExecuted", evLayer, e, e.Result, e.Error, nil) })
+				b.OnFallbackExecuted(func(e failsafe.ExecutionDoneEvent[string]) {
+					rec.info("OnFallbackExecuted", evLayer, e, e.Result, e.Error, nil)
+				})
 			}
 			p = b.Build()
+			if rec.alt&2 != 0 {
+				b.OnFallbackExecuted(func(failsafe.ExecutionDoneEvent[string]) { rec.plain("WrongListener", evLayer, "", nil) })
+				bs.spare = append(bs.spare, b.Build())
+			}
 		case "cache":
 			ic := &instrCache{rec: rec, layer: evLayer, m: map[string]string{}}
 			bs.caches[d.Id] = ic
@@ -652,7 +768,9 @@ func buildStack(stack []desc, unit time.Duration, rec *recorder) *builtStack {
 				b.CacheIf(condPred(c))
 			}
 			if rec.registered("OnCacheHit") {
-				b.OnCacheHit(func(e failsafe.ExecutionDoneEvent[string]) { rec.info("OnCacheHit", evLayer, e, e.Result, e.Error, nil) })
+				b.OnCacheHit(func(e failsafe.ExecutionDoneEvent[string]) {
+					rec.info("OnCacheHit", evLayer, e, e.Result, e.Error, nil)
+				})
 			}
 			if rec.registered("OnCacheMiss") {
 				b.OnCacheMiss(func(e failsafe.ExecutionEvent[string]) { rec.attempt("OnCacheMiss", evLayer, e, nil) })
@@ -676,9 +794,13 @@ func buildStack(stack []desc, unit time.Duration, rec *recorder) *builtStack {
 				})
 			}
 			p = b.Build()
+			if rec.alt&2 != 0 {
+				b.OnTimeoutExceeded(func(failsafe.ExecutionDoneEvent[string]) { rec.plain("WrongListener", evLayer, "", nil) })
+				bs.spare = append(bs.spare, b.Build())
+			}
 		case "hg":
 			b := hedgepolicy.BuilderWithDelay[string](time.Duration(d.Delay) * unit)
-			if rec.alt == 1 && len(d.Delays) == 0 {
+			if rec.alt&1 == 1 && len(d.Delays) == 0 {
 				dl := time.Duration(d.Delay) * unit
 				b = hedgepolicy.BuilderWithDelayFunc[string](func(failsafe.ExecutionAttempt[string]) time.Duration { return dl })
 			}
@@ -694,6 +816,10 @@ func buildStack(stack []desc, unit time.Duration, rec *recorder) *builtStack {
 				b.OnHedge(func(e failsafe.ExecutionEvent[string]) { rec.attempt("OnHedge", evLayer, e, nil) })
 			}
 			p = b.Build()
+			if rec.alt&2 != 0 {
+				b.WithMaxHedges(d.Maxh + 2).OnHedge(func(failsafe.ExecutionEvent[string]) { rec.plain("WrongListener", evLayer, "", nil) })
+				bs.spare = append(bs.spare, b.Build())
+			}
 		default:
 			panic("unknown policy kind " + d.K)
 		}
@@ -733,7 +859,7 @@ func kindOfLayer(stack []desc, l int) string {
 }
 
 func replaySeq(b fsBehaviour, unit time.Duration, entry int, variant int) (mis []fsMismatch, nontrivial bool) {
-	rec := &recorder{unit: unit, variant: variant % 6, alt: (variant / 6) % 2}
+	rec := &recorder{unit: unit, variant: variant % 6, alt: (variant / 6) % 4}
 	bs := buildStack(b.Stack, unit, rec)
 	n := len(b.Stack)
 	add := func(x int, tag, kind, f string, a ...any) {
@@ -1002,11 +1128,11 @@ func init() {
 				}
 				var mis []fsMismatch
 				synctest.Test(t, func(t *testing.T) {
-					mis, nt = replaySeq(b, unit, entry, int(k)%12)
+					mis, nt = replaySeq(b, unit, entry, int(k)%24)
 				})
 				if len(mis) > 0 {
 					if bad.Add(1) <= 40 {
-						emit(M{"k": "mismatch", "entry": entry, "variant": int(k) % 12, "mis": mis, "behaviour": json.RawMessage(mustJSON(b))})
+						emit(M{"k": "mismatch", "entry": entry, "variant": int(k) % 24, "mis": mis, "behaviour": json.RawMessage(mustJSON(b))})
 					} else {
 						tags := map[string]bool{}
 						for _, m := range mis {
